@@ -111,6 +111,23 @@ Theorem C17_ragged_truncate_order_from_source : forall h d idx r h' es,
 Proof. exact rtruncate_runs. Qed.
 Print Assumptions C17_ragged_truncate_order_from_source.
 
+(* RaggedArray.iterappend: per item values/ then indices/ (RaggedArray._append, expanded
+   from its own generated skeleton); on failure both data files are cut (values, then
+   indices: the literal loop of the handler unrolled), then _update_lens; _update_lens:
+   values description + README, indices description + README, top-level description,
+   top-level README -- every fault plan (raising iterable, wrong atom, unconvertible
+   item, index overflow, either write stopped after any number of bytes). *)
+Theorem C17_ragged_append_order_from_source : forall h d its r h' es,
+  riterappend h d its = (r, h', es) ->
+  exists o, oc_match r o /\ rruns sk_ragged_iterappend o (map rkind_of es).
+Proof. exact riterappend_runs. Qed.
+Print Assumptions C17_ragged_append_order_from_source.
+
+Theorem C17_ragged_update_lens_order_from_source : forall h d vinc iinc h' es,
+  update_lens h d vinc iinc = Ok (h', es) -> rruns sk_ragged_update_lens Normal (map rkind_of es).
+Proof. exact update_lens_runs. Qed.
+Print Assumptions C17_ragged_update_lens_order_from_source.
+
 (* non-vacuity: the recovery path of a two-chunk append whose second chunk is refused *)
 Example C17_order_example :
   match iterappend (mkHandle RW Int16 Little [1])
